@@ -1047,7 +1047,7 @@ func main() {
 				list = append(list, "embedded")
 			}
 			if f != "cache_keys" {
-				list = append(list, "cache_keys", "cache_keys")
+				list = append(list, "cache_keys")
 			}
 			for len(list) < nRounds {
 				list = append(list, hx.Pick(rs, names))
